@@ -633,3 +633,79 @@ Proof.
   apply switch_malachite; [apply modpow_twins, malachite_lib_ok|].
   intros f f' a m Hs. same_flags Hs. unfold op_modpow_num. rewrite H7, H12. reflexivity.
 Qed.
+
+(* ---- a boolean test for unknown_no_wrap (for the coordinator's barrier dialect) ---- *)
+Definition unknown_no_wrap_b (o : bytes) (f : flagset) (a : sexp) : bool :=
+  f_new_cost_model f ||
+  match unknown_base (cost_function_of o) (arg_lens a) false U64_MAX with
+  | Ok b => b * (be_value (removelast o) + 1) <? two64
+  | Err _ => true
+  end.
+
+Lemma plain_add_lt s a b c : plain_add s a b = Ok c -> c < two64.
+Proof. unfold plain_add. destruct (a + b <? two64) eqn:E; intros H; inversion H. subst. lia. Qed.
+
+Lemma unk_add_old_lt m lens : forall cost b, cost < two64 -> unk_add_old lens cost m = Ok b -> b < two64.
+Proof.
+  induction lens as [|[len|] r IH]; intros cost b Hc H; cbn [unk_add_old] in H; try discriminate H.
+  - inversion H. subst. exact Hc.
+  - destruct (plain_add 1 _ _) as [c1|] eqn:E1; cbn [bind] in H; [|discriminate H].
+    destruct (plain_mul 2 _ _) as [t|] eqn:E2; cbn [bind] in H; [|discriminate H].
+    destruct (plain_add 3 _ _) as [c2|] eqn:E3; cbn [bind] in H; [|discriminate H].
+    destruct (check_cost c2 m); cbn [bind] in H; [|discriminate H].
+    eapply IH; [|exact H]. eapply plain_add_lt; exact E3.
+Qed.
+
+Lemma unk_mul_old_lt m lens : forall cost l0 b, cost < two64 -> unk_mul_old lens cost l0 m = Ok b -> b < two64.
+Proof.
+  induction lens as [|[len|] r IH]; intros cost l0 b Hc H; cbn [unk_mul_old] in H; try discriminate H.
+  - inversion H. subst. exact Hc.
+  - destruct (plain_add 4 _ _) as [c1|] eqn:E1; cbn [bind] in H; [|discriminate H].
+    destruct (plain_add 5 _ _) as [s|] eqn:E2; cbn [bind] in H; [|discriminate H].
+    destruct (plain_mul 6 _ _) as [t|] eqn:E3; cbn [bind] in H; [|discriminate H].
+    destruct (plain_add 7 _ _) as [c2|] eqn:E4; cbn [bind] in H; [|discriminate H].
+    destruct (plain_mul 8 _ _) as [p|] eqn:E5; cbn [bind] in H; [|discriminate H].
+    destruct (plain_add 9 _ _) as [c3|] eqn:E6; cbn [bind] in H; [|discriminate H].
+    destruct (plain_add 10 _ _) as [l1|] eqn:E7; cbn [bind] in H; [|discriminate H].
+    destruct (check_cost c3 m); cbn [bind] in H; [|discriminate H].
+    eapply IH; [|exact H]. eapply plain_add_lt; exact E6.
+Qed.
+
+Lemma unk_concat_lt m lens : forall cost b, cost < two64 -> unk_concat lens cost m = Ok b -> b < two64.
+Proof.
+  induction lens as [|[len|] r IH]; intros cost b Hc H; cbn [unk_concat] in H; try discriminate H.
+  - inversion H. subst. exact Hc.
+  - destruct (plain_add 11 _ _) as [c1|] eqn:E1; cbn [bind] in H; [|discriminate H].
+    destruct (plain_mul 12 _ _) as [t|] eqn:E2; cbn [bind] in H; [|discriminate H].
+    destruct (plain_add 13 _ _) as [c2|] eqn:E3; cbn [bind] in H; [|discriminate H].
+    destruct (check_cost c2 m); cbn [bind] in H; [|discriminate H].
+    eapply IH; [|exact H]. eapply plain_add_lt; exact E3.
+Qed.
+
+Lemma unknown_base_old_lt fn lens m b : unknown_base fn lens false m = Ok b -> b < two64.
+Proof.
+  unfold unknown_base.
+  destruct (fn =? 0); [intros H; inversion H; reflexivity|].
+  destruct (fn =? 1); [apply unk_add_old_lt; reflexivity|].
+  destruct (fn =? 2).
+  { destruct lens as [|[l0|] r]; [intros H; inversion H; reflexivity| |discriminate].
+    apply unk_mul_old_lt. reflexivity. }
+  destruct (fn =? 3); [apply unk_concat_lt; reflexivity|].
+  intros H; inversion H; reflexivity.
+Qed.
+
+(* a successful pre-hard-fork base cost does not depend on the budget *)
+Lemma unknown_base_old_any_budget fn lens m b :
+  unknown_base fn lens false m = Ok b -> unknown_base fn lens false U64_MAX = Ok b.
+Proof.
+  intros H. pose proof (unknown_base_old_lt _ _ _ _ H) as Hlt.
+  destruct (budN_elim _ _ (unknown_base_budN fn lens false) m b H) as [_ Hm].
+  destruct (Hm U64_MAX) as [H1 _]. apply H1. right. unfold U64_MAX. unfold two64 in Hlt. lia.
+Qed.
+
+Lemma unknown_no_wrap_b_sound : forall o f a, unknown_no_wrap_b o f a = true -> unknown_no_wrap o f a.
+Proof.
+  intros o f a H. unfold unknown_no_wrap_b in H. unfold unknown_no_wrap.
+  destruct (f_new_cost_model f); [left; reflexivity|right]. cbn [orb] in H.
+  intros m b Hb. apply unknown_base_old_any_budget in Hb. rewrite Hb in H. apply N.ltb_lt. exact H.
+Qed.
